@@ -151,3 +151,36 @@ func Harness_C12_rename_dir() {
 	}
 	vm.Assert("C12.rename_locks_free", s.v.Env.LocksFree())
 }
+
+// Harness_C12_removeall_with_links: symbolic links are entries too. A link that lives inside the removed directory
+// goes with it, a link outside that points into it stays (dangling), whatever the links point to.
+func Harness_C12_removeall_with_links() {
+	v := verifNewFS(config.PipeConfig{}, false, true)
+	v.rootOnly()
+	v.Env.AddEntry("/d", tar.TypeDir, 0, false, "")
+	v.Env.AddEntry("/d/f", tar.TypeReg, 0, false, "")
+	v.Env.AddEntry("/x", tar.TypeReg, 0, false, "")
+	inside := vm.Bool("linkInsideThePointingOut")
+	if inside {
+		// a link at /d/l to /x: stored under the name of its target
+		v.Env.AddEntry("/x", tar.TypeSymlink, 0, false, "/d/l")
+	} else {
+		// a link at /m to /d/f
+		v.Env.AddEntry("/d/f", tar.TypeSymlink, 0, false, "/m")
+	}
+	err := v.FS.RemoveAll("/d")
+	vm.Assert("C12.removeall_with_links_ok", err == nil)
+	_, _, e1 := v.FS.LstatIfPossible("/d/l")
+	_, _, e2 := v.FS.LstatIfPossible("/m")
+	_, e3 := v.FS.Stat("/x")
+	_, e4 := v.FS.Stat("/d/f")
+	vm.Assert("C12.entry_outside_removed_directory_stays", e3 == nil)
+	vm.Assert("C12.entry_inside_removed_directory_is_removed", e4 != nil)
+	// (only what happens to the links themselves is the listed finding)
+	vm.Known("C12-links-are-filed-under-their-target", true)
+	if inside {
+		vm.Assert("C12.link_inside_removed_directory_is_removed", e1 != nil)
+	} else {
+		vm.Assert("C12.link_outside_removed_directory_stays", e2 == nil)
+	}
+}
